@@ -12,7 +12,7 @@ from .calls import CallMixin
 from .stmt import StmtMixin
 
 UNIVERSES = {"NodeSet": T.Set(T.INT), "Node": T.INT, "Id": T.INT, "Int": T.INT, "Tuple": T.TUP, "Layer": T.LAYER, "Field": T.FIELD,
-             "Real": T.REAL, "MetaD": T.META}
+             "Real": T.REAL, "MetaD": T.META, "VName": T.VNAME, "VObj": T.VOBJ}
 
 
 class Layout:
@@ -258,6 +258,24 @@ class Engine(ExprMixin, CallMixin, StmtMixin):
         if fn == "ite":
             c = self.truth(self.ev(e.args[0], p), p)
             return self.merge(c, self.ev(e.args[1], p), self.ev(e.args[2], p))
+        if fn in ("vN", "vE") and len(e.args) == 1:             # vertex names "N" + str(i) / "E" + str(i)
+            i = self.coerce(self.ev(e.args[0], p), T.INT).t
+            return T.scalar(T.VNAME, T.VNameS.vN(i) if fn == "vN" else T.VNameS.vE(i))
+        if fn in ("is_vN", "is_vE", "vidx") and len(e.args) == 1:
+            x = self.coerce(self.ev(e.args[0], p), T.VNAME).t
+            if fn == "vidx":
+                return T.sv_int(z3.If(T.VNameS.is_vN(x), T.VNameS.vn_idx(x), T.VNameS.ve_idx(x)))
+            return T.sv_bool(T.VNameS.is_vN(x) if fn == "is_vN" else T.VNameS.is_vE(x))
+        if fn in ("onode", "oedge") and len(e.args) == 1:      # the object a vertex name stands for
+            v = self.ev(e.args[0], p)
+            return self.coerce(self.coerce(v, T.INT if fn == "onode" else T.TUP), T.VOBJ)
+        if fn in ("is_onode", "is_oedge", "nodeof", "edgeof") and len(e.args) == 1:
+            o = self.coerce(self.ev(e.args[0], p), T.VOBJ).t
+            if fn == "nodeof":
+                return T.sv_int(T.VObjS.o_node(o))
+            if fn == "edgeof":
+                return T.scalar(T.TUP, T.VObjS.o_edge(o))
+            return T.sv_bool(T.VObjS.is_oNode(o) if fn == "is_onode" else T.VObjS.is_oEdge(o))
         if fn == "canon":
             v = self.ev(e.args[0], p)
             if isinstance(v.ty, T.Pair):      # canonical key of a composite record: canonicalise every node-tuple component
